@@ -51,7 +51,9 @@ def gen(rng: random.Random, tier: str, idx: int) -> dict:
             if r < 0.2:
                 # a pre-built file handed over with append_files: already older than the grace period (or fresh) when it
                 # is registered, then the transaction stays open for g
+                part = rng.random() < 0.5      # partitioned layout: every writer's file has the same basename
                 ops.append({"kind": "files_append", "tag": f"w{i}.{j}", "n": 1, "age": rng.choice([0.0, 7200.0, 7200.0]),
+                            **({"dir": f"p={i + 1}", "name": "pre_part0"} if part else {}),
                             "gap": g, "rollback": rng.random() < 0.1})
             elif r < 0.7:
                 ops.append({"kind": "long_append", "tag": f"w{i}.{j}", "n": 1, "gap": g, "rollback": rng.random() < 0.15})
@@ -92,7 +94,8 @@ def prebuilt_cause(sim, path: str) -> str:
     collector's marker listing of the run that removed it?  ('before' means the protection was in force and ignored.)"""
     b = path.rsplit("/", 1)[-1]
     reg = [g for (g, _vt, a, op, t, o) in sim.log
-           if op in ("replace", "put") and o == "ok" and t.endswith(f"inflight/{b}.inflight")]
+           if op in ("replace", "put") and o == "ok" and f"inflight/{b}." in t and t.endswith(".inflight")
+           and "/.tmp." not in t]
     dele = [g for (g, _vt, a, op, t, o) in sim.log
             if a.startswith("gc") and op in ("remove", "delete") and o == "ok" and t.lstrip("/") == path.lstrip("/")]
     if not dele:
